@@ -139,6 +139,33 @@ func describe(n *node) string {
 	return sb.String()
 }
 
+type tracker struct {
+	n    int
+	last string
+}
+
+func (t *tracker) add(s string) {
+	if t.n == 0 || len(s) > len(t.last) {
+		t.last = s
+	}
+	t.n++
+}
+
+func (t tracker) summary() string { return fmt.Sprint(t.n, ":", t.last) }
+
+type verdict struct {
+	values []int
+	each   bool
+}
+
+func newVerdict(vs []int, n int) verdict { return verdict{values: vs, each: len(vs) == n} }
+
+func (v verdict) rejects(i int) bool { return v.each && v.values[i] == 0 }
+
+func keep(xs []int, i int, sink *[]func() int) {
+	*sink = append(*sink, func() int { return xs[i] })
+}
+
 // ---- known functions (kept) ----
 
 func run(v interface{}, w *wrapper) (err error) {
@@ -185,7 +212,32 @@ func chain() {
 	}
 }
 
+func structs() {
+	var t tracker
+	for _, s := range []string{"a", "ccc", "bb"} {
+		t.add(s)
+	}
+	emit(t.summary())
+	v := newVerdict([]int{1, 0, 2}, 3)
+	for i := 0; i < 3; i++ {
+		if v.rejects(i) {
+			continue
+		}
+		emit(fmt.Sprint("kept", i))
+	}
+	// loop variables must not be aliased into closures of expanded helpers
+	var fs []func() int
+	xs := []int{10, 20, 30}
+	for i := range xs {
+		keep(xs, i, &fs)
+	}
+	for _, f := range fs {
+		emit(fmt.Sprint("closure", f()))
+	}
+}
+
 func main() {
+	structs()
 	w := &wrapper{base: &base{prefix: "w"}}
 	for _, v := range []interface{}{nil, 1.5, []interface{}{1, 2}, map[string]interface{}{"a": 1, "b": 2, "c": 3}, []interface{}{}} {
 		err := run(v, w)
